@@ -1,8 +1,9 @@
 #!/bin/sh
 # Applies each behaviour-preserving refactoring (refactorings/*.diff) to a scratch copy and runs the related quick checks:
-# every line must say "silent". Output goes to refactorings/RESULTS.txt.
+# every line must say "silent". Output is appended to refactorings/RESULTS.txt. Arguments: ids to run (default: all).
 cd "$(dirname "$0")/.."
-run() { python3 mutants/run.py "refactorings/$1.diff" "$2" 2>&1 | python3 -c "
+ONLY="$*"
+run() { if [ -n "$ONLY" ]; then case " $ONLY " in *" $1 "*) ;; *) return;; esac; fi; [ -f "refactorings/$1.diff" ] || return; python3 mutants/run.py "refactorings/$1.diff" "$2" 2>&1 | python3 -c "
 import sys,json
 t=sys.stdin.read(); i=t.find('{\n \"patch\"')
 try:
@@ -23,4 +24,11 @@ for k in D3 D4; do run $k C10,C11,C12; done
 for k in E1 E2; do run $k C12,C13; done
 run E3 C12,C13,C09
 run E4 C14,C12,C03
-} | tee refactorings/RESULTS.txt
+for k in F1 F2 F3 F4; do run $k C10,C11,C12,C16; done
+for k in G1 G2 G3 G4; do run $k C20; done
+for k in H1 H2 H3; do run $k C19; done
+run H4 C15,C14
+for k in I1 I2 I3; do run $k C12,C13; done
+run I4 C12,C13,C09
+for k in J1 J2 J3 J4; do run $k C14,C17,C09,C18,C06,C03; done
+} | tee -a refactorings/RESULTS.txt
